@@ -4,12 +4,6 @@ import MontePyVerif.Lemmas.GeometryUpdate
 namespace MontePyVerif.C02
 open MontePyVerif.Spec.Geometry MontePyVerif.Geometry
 
-/-- the strings of a padding hold no comment start (comments are `CommentNode`s) -/
-def cleanPad (p : Pad) : Bool :=
-  p.all fun
-    | .str cs => !cs.contains .cmt
-    | .cmt _ => true
-
 theorem cmtAfter_noCmt {S : List GCh} (h : S.contains .cmt = false) : cmtAfter false S = false := by
   induction S with
   | nil => rfl
@@ -178,30 +172,6 @@ theorem cmtAfter_neutral (c : Bool) (x : GCh) (hx1 : x ≠ .cmt) (hx2 : x ≠ .n
   have h2 : (x != GCh.nl) = true := by simp [hx2]
   cases c <;> simp [cmtAfter, h1, h2]
 
-theorem blankSym_ne_colon (x : GCh) : blankSym x ≠ .colon := by cases x <;> simp [blankSym]
-
-theorem cleanPad_switch_none (p : Pad) (h : cleanPad p = true) : cleanPad (switchOperator p none) = true := by
-  simp only [switchOperator]
-  induction p with
-  | nil => rfl
-  | cons it p ih =>
-    simp only [cleanPad, List.all_cons, Bool.and_eq_true, List.map_cons] at h ⊢
-    refine ⟨?_, ih h.2⟩
-    cases it with
-    | cmt n => rfl
-    | str cs =>
-      have h1 : cs.contains .cmt = false := by simpa using h.1
-      simp only [Bool.not_eq_true']
-      cases hh : (cs.map blankSym).contains .cmt with
-      | false => rfl
-      | true =>
-        have : GCh.cmt ∈ cs.map blankSym := by simpa using hh
-        obtain ⟨x, hx, hxe⟩ := List.mem_map.1 this
-        have : x = .cmt := by cases x <;> simp [blankSym] at hxe <;> rfl
-        subst this
-        have : cs.contains .cmt = true := by simpa using hx
-        rw [h1] at this; cases this
-
 /-- **`__switch_operator(":")`** on a padding that holds separators and comments (what an intersection or a
     blanked-out operator leaves): the result is the operator padding of a union — separators, one ":" that MCNP
     reads (it is put on a blank that is not behind a comment on its line, or in front when there is none),
@@ -209,7 +179,9 @@ theorem cleanPad_switch_none (p : Pad) (h : cleanPad p = true) : cleanPad (switc
 theorem switch_colon_spec (p : Pad) (hs : isSep false p.format = true) (hc : cmtAfter false p.format = false)
     (hclean : cleanPad p = true) :
     unionOpr (Pad.format (switchOperator p (some .colon))) = true ∧
-      ∀ c, cmtAfter c (Pad.format (switchOperator p (some .colon))) = cmtAfter c p.format := by
+      (∀ c, cmtAfter c (Pad.format (switchOperator p (some .colon))) = cmtAfter c p.format) ∧
+      cleanPad (switchOperator p (some .colon)) = true := by
+  have hcl := cleanPad_switch_none p hclean
   -- the padding after the old symbols were blanked out
   have hfn : Pad.format (switchOperator p none) = p.format.map blankSym := format_switch_none p
   have hsn : isSep false (Pad.format (switchOperator p none)) = true := by rw [hfn]; exact isSep_map_blank _ _ hs
@@ -242,10 +214,11 @@ theorem switch_colon_spec (p : Pad) (hs : isSep false p.format = true) (hc : cmt
     simp only []
     have hf : Pad.format (.str [.colon] :: switchOperator p none) = [] ++ .colon :: Pad.format (switchOperator p none) := by
       simp [Pad.format, PItem.format]
-    refine ⟨?_, fun c => ?_⟩
+    refine ⟨?_, fun c => ?_, ?_⟩
     · rw [hf]
       exact unionOpr_of_split (by simp) rfl rfl hsn (by rw [hcn]; exact hc)
     · rw [hf, List.nil_append, cmtAfter_neutral c _ (by decide) (by decide), hcn]
+    · simpa [cleanPad] using hcl
   | cons b bs =>
     simp only []
     -- the chosen blank is one of the recorded ones
@@ -257,6 +230,7 @@ theorem switch_colon_spec (p : Pad) (hs : isSep false p.format = true) (hc : cmt
       if absDiff x.1 ((visibleBlanks (switchOperator p none)).2.1 / 2)
         < absDiff m.1 ((visibleBlanks (switchOperator p none)).2.1 / 2) then x else m) b) = best at hmem ⊢
     obtain ⟨pre, cs, post, hnodes, hlen, hsp, hvis⟩ := hvb best (by rw [hbl]; exact hmem)
+    rw [hnodes] at hcl
     rw [hnodes, ← hlen, setItem_eq]
     -- the string splits at the blank
     have hj : best.2.2 < cs.length := by
@@ -294,9 +268,147 @@ theorem switch_colon_spec (p : Pad) (hs : isSep false p.format = true) (hc : cmt
       have := hcn false
       rw [cmtAfter_append, hvis, cmtAfter_neutral false _ (by decide) (by decide), hc] at this
       exact this
-    refine ⟨unionOpr_of_split hA hsA.1 hvis hsA.2 hcB, fun c => ?_⟩
+    refine ⟨unionOpr_of_split hA hsA.1 hvis hsA.2 hcB, fun c => ?_, ?_⟩
+    rotate_left
+    · simp only [cleanPad, List.all_append, List.all_cons, Bool.and_eq_true, Bool.not_eq_true'] at hcl ⊢
+      refine ⟨hcl.1, ?_, hcl.2.2⟩
+      have h0 := hcl.2.1
+      cases hh : (cs.take best.2.2 ++ [GCh.colon] ++ cs.drop (best.2.2 + 1)).contains .cmt with
+      | false => rfl
+      | true =>
+        have hm : GCh.cmt ∈ cs.take best.2.2 ++ [GCh.colon] ++ cs.drop (best.2.2 + 1) := by simpa using hh
+        simp only [List.mem_append, List.mem_singleton] at hm
+        have : GCh.cmt ∈ cs := by
+          rcases hm with (h | h) | h
+          · exact List.mem_of_mem_take h
+          · cases h
+          · exact List.mem_of_mem_drop h
+        have : cs.contains .cmt = true := by simpa using this
+        rw [h0] at this; cases this
     rw [← hcn c, cmtAfter_append c (Pad.format pre ++ cs.take best.2.2) (GCh.colon :: _),
       cmtAfter_append c (Pad.format pre ++ cs.take best.2.2) (GCh.sp :: _),
       cmtAfter_neutral _ GCh.colon (by decide) (by decide), cmtAfter_neutral _ GCh.sp (by decide) (by decide)]
+
+/-- **`_update_node` on every node turns `linked` into `ready`**; texts only get more closed, meanings stay. -/
+theorem update_ready (h : HS) (hl : linked h = true) :
+    ready (updateAll h) = true ∧ Le (updateAll h).fmt h.fmt ∧ Same (updateAll h) h := by
+  induction h with
+  | unit d s c n =>
+    refine ⟨?_, Le.refl _, Same.refl _⟩
+    cases c <;> cases n <;> simp_all [linked, ready, gen, updateAll]
+  | compl l n ih =>
+    cases n with
+    | none => simp [linked, gen] at hl
+    | some g =>
+      by_cases hcu : isCellUnit l = true
+      · cases l with
+        | unit d s c vn =>
+          cases c
+          · simp [isCellUnit] at hcu
+          · cases vn with
+            | none => simp [linked, gen] at hl
+            | some v =>
+              have hopr : complOpr g.opr.format = true := by
+                simp only [linked, gen, Bool.and_eq_true] at hl; exact hl.1.1.1.1.2
+              have hu : updateAll (.compl (.unit d s true (some v)) (some g)) =
+                  .compl (.unit d s true (some v)) (some g) := by
+                simp [updateAll, updateNodeCompl_id g hopr]
+              rw [hu]
+              exact ⟨by simpa [linked, ready, gen] using hl, Le.refl _, Same.refl _⟩
+        | compl _ _ => simp [isCellUnit] at hcu
+        | bin _ _ _ _ => simp [isCellUnit] at hcu
+      · have hcu' : isCellUnit l = false := by simpa using hcu
+        simp only [linked] at hl
+        rw [gen_compl_general hcu'] at hl
+        simp only [Bool.and_eq_true] at hl
+        obtain ⟨⟨⟨⟨⟨hll, ho⟩, hopr⟩, hhp⟩, hck⟩, hep⟩ := hl
+        obtain ⟨i1, i2, i3⟩ := ih hll
+        have hu : updateAll (.compl l (some g)) = .compl (updateAll l) (some g) := by
+          simp [updateAll, updateNodeCompl_id g hopr]
+        rw [hu]
+        have hcu1 : isCellUnit (updateAll l) = false := by rw [i3.cellU]; exact hcu'
+        refine ⟨?_, ?_, i3.compl_congr _ _⟩
+        · simp only [ready]
+          rw [gen_compl_general hcu1]
+          simp only [Bool.and_eq_true]
+          exact ⟨⟨⟨⟨⟨i1, ho⟩, hopr⟩, hhp⟩, chainOK_ext (ChainExt.refl _) i2 hck⟩, hep⟩
+        · rw [fmt_compl ho, fmt_compl ho]
+          exact Le.append (Le.refl _) (Le.append (wrapFmt_le (ChainExt.refl _) i2) (Le.refl _))
+  | bin o l r n ihl ihr =>
+    cases n with
+    | none => simp [linked, gen] at hl
+    | some g =>
+      simp only [linked, gen, Bool.and_eq_true, Bool.not_eq_true', cond_false] at hl
+      obtain ⟨⟨⟨⟨⟨⟨⟨⟨hll, hlr⟩, ho⟩, hckl⟩, hckr⟩, hLc⟩, hopr⟩, hop⟩, hep⟩ := hl
+      obtain ⟨l1, l2, l3⟩ := ihl hll
+      obtain ⟨r1, r2, r3⟩ := ihr hlr
+      have hckl' := chainOK_ext (ChainExt.refl g.lchain) l2 hckl
+      have hckr' := chainOK_ext (ChainExt.refl g.rchain) r2 hckr
+      have hLc' := (wrapFmt_le (ChainExt.refl g.lchain) l2).closed hLc
+      cases o with
+      | union =>
+        -- the padding after `_update_node`: unchanged, or rewritten by `__switch_operator(":")`
+        have key : ∃ opr', updateNodeBin .union g = { g with opr := opr' } ∧ unionOpr (Pad.format opr') = true ∧
+            (∀ c, cmtAfter c (Pad.format opr') = cmtAfter c g.opr.format) ∧ cleanPad opr' = true := by
+          simp only [oprPre, Bool.or_eq_true, Bool.and_eq_true] at hopr
+          obtain ⟨h4, hopr⟩ := hopr
+          rcases hopr with h | h
+          rotate_left
+          · exact ⟨g.opr, by rw [updateNodeBin_union g h], h, fun _ => rfl, h4⟩
+          · simp only [interLike, Bool.and_eq_true, Bool.not_eq_true'] at h
+            obtain ⟨⟨h1, h2⟩, h3⟩ := h
+            obtain ⟨s1, s2, s3⟩ := switch_colon_spec g.opr h1 h2 h4
+            have hnc : ¬ GCh.colon ∈ strChars g.opr := by
+              intro hm
+              have : (strChars g.opr).contains .colon = true := by simpa using hm
+              rw [h3] at this; cases this
+            exact ⟨switchOperator g.opr (some .colon), by simp [updateNodeBin, hnc], s1, s2, s3⟩
+        obtain ⟨opr', hg', hu', heq', hcl'⟩ := key
+        have hu : updateAll (.bin .union l r (some g)) =
+            .bin .union (updateAll l) (updateAll r) (some { g with opr := opr' }) := by
+          simp [updateAll, hg']
+        rw [hu]
+        have ho' : orderOK { g with opr := opr' } [.left, .operator, .right] = true := ho
+        refine ⟨?_, ?_, Same.bin_congr .union l3 r3 _ _⟩
+        · simp only [ready, gen, Bool.and_eq_true, Bool.not_eq_true', cond_true, oprOKp]
+          exact ⟨⟨⟨⟨⟨⟨⟨⟨l1, r1⟩, ho'⟩, hckl'⟩, hckr'⟩, hLc'⟩, ⟨hcl', hu'⟩⟩, trivial⟩, hep⟩
+        · rw [fmt_bin ho, fmt_bin ho']
+          refine Le.append (wrapFmt_le (ChainExt.refl _) l2)
+            (Le.append ?_ (Le.append (wrapFmt_le (ChainExt.refl _) r2) (Le.refl _)))
+          intro c hh; rw [heq' c] at hh; exact hh
+      | inter =>
+        simp only [oprPre, Bool.or_eq_true, Bool.and_eq_true] at hopr
+        obtain ⟨hclean, hopr⟩ := hopr
+        have hpre : isSep false (g.opr.format.map blankSym) = true ∧ cmtAfter false g.opr.format = false := by
+          rcases hopr with h | h
+          · simp only [interLike, Bool.and_eq_true, Bool.not_eq_true'] at h
+            exact ⟨isSep_map_blank _ _ h.1.1, h.1.2⟩
+          · obtain ⟨a, b, hab, ha, hac, hb, hbc⟩ := unionOpr_shape h
+            refine ⟨?_, by rw [hab, cmtAfter_union_opr hac]; exact hbc⟩
+            rw [hab, List.map_append, List.map_cons, isSep_append, isSep_map_blank _ _ ha, cmtAfter_map_blank, hac]
+            simpa [blankSym, isSep] using isSep_map_blank _ _ hb
+        simp only [Bool.and_eq_true, Bool.not_eq_true', Bool.or_eq_true, Bool.not_false, Bool.true_or,
+          true_and] at hop
+        obtain ⟨hul, hur⟩ := hop
+        obtain ⟨opr', hg', hs', hc', hne', heq', hcl', hnc'⟩ := updateNodeBin_inter g hpre.1 hpre.2 hclean
+        have hu : updateAll (.bin .inter l r (some g)) =
+            .bin .inter (updateAll l) (updateAll r) (some { g with opr := opr' }) := by
+          simp [updateAll, hg']
+        rw [hu]
+        have ho' : orderOK { g with opr := opr' } [.left, .operator, .right] = true := ho
+        refine ⟨?_, ?_, Same.bin_congr .inter l3 r3 _ _⟩
+        · simp only [ready, gen, Bool.and_eq_true, Bool.not_eq_true', Bool.or_eq_true, Bool.not_true,
+            Bool.false_or, cond_true, oprOKp, interLike]
+          refine ⟨⟨⟨⟨⟨⟨⟨⟨l1, r1⟩, ho'⟩, hckl'⟩, hckr'⟩, hLc'⟩, ⟨hcl', ⟨⟨hs', hc'⟩, hnc'⟩⟩⟩, ⟨⟨?_, ?_⟩, ?_⟩⟩, hep⟩
+          · rcases hne' with h | h | h
+            · left; left; left; simpa using h
+            · left; left; right; exact h
+            · left; right; exact h
+          · rw [l3.isU]; exact hul
+          · rw [r3.isU]; exact hur
+        · rw [fmt_bin ho, fmt_bin ho']
+          refine Le.append (wrapFmt_le (ChainExt.refl _) l2)
+            (Le.append ?_ (Le.append (wrapFmt_le (ChainExt.refl _) r2) (Le.refl _)))
+          intro c hh; rw [heq' c] at hh; exact hh
 
 end MontePyVerif.C02
